@@ -23,7 +23,8 @@ MANIFEST = {
              "answer recomputed with caching off. A second configuration does traverse - mutate - traverse for "
              "bft / dft_recursive / dft_iterative / bfs.",
     "note": "Bounds: 3 vertices, 2 two-ended pool links (+1 created), mutator sequence length 1/2 after the warm-up, one "
-            "(direction, unknown, filter) key per run. Because the start state is arbitrary (not only freshly built), the "
+            "(direction, unknown, filter) key per run (two independent keys in the two-key configurations; a filter "
+            "object without a hash in one configuration). Because the start state is arbitrary (not only freshly built), the "
             "claim covers any history prefix that ends in a valid graph with coherent cache entries. Process boundary "
             "is modelled by the missing statistics record; real pickling is C10. id()-reuse / garbage collection are "
             "outside every claim. Trusted: pysym (validated per path on CPython), z3.",
@@ -63,6 +64,13 @@ def configs(tier):
     # (c) a vertex without statistics record (un-pickled in a fresh interpreter): hit, miss, insert, invalidate paths
     out.append({"mode": "neighbors", "state": "built", "pool": ["DE", "UE"], "families": ["set_v2"], "filter": "none", "unreg": True})
     out.append({"mode": "neighbors", "state": "built", "pool": ["DE", "UE"], "families": ["add_to_link"], "filter": "none", "unreg": True})
+    # (c') the filter is a callable object without a hash (defines __eq__ only): it cannot be a cache key
+    out.append({"mode": "neighbors", "state": "built", "pool": ["DE", "UE"], "families": ["set_v2"], "filter": "ufu"})
+    # (c'') the warm-up query and the checked query use independent (direction, unknown-handling) arguments:
+    # an entry stored for one argument combination must never answer another
+    out.append({"mode": "neighbors", "state": "built", "pool": ["DE", "TE"], "families": [], "filter": "none", "twokeys": True})
+    if not q:
+        out.append({"mode": "neighbors", "state": "built", "pool": ["DE", "TE"], "families": ["set_v2"], "filter": "none", "twokeys": True})
     # (d) traverse - mutate - traverse
     for fam in (("set_v2",) if q else ("set_v1", "set_v2", "unlink", "ctor", "unlink_from", "add_vertex")):
         out.append({"mode": "traversal", "state": "built", "pool": ["DE", "UE"], "families": [fam], "filter": "none"})
@@ -170,7 +178,8 @@ def scenario(B, p):
     d = B.int("direction", 0, 2)
     if p["mode"] == "neighbors":
         u = B.int("unknown_handling", 0, 2) if "TE" in p["pool"] else 2
-        ff = B.uf("ff", [links + ["new"], verts + [None]], "bool") if p["filter"] == "uf" else None
+        ff = (B.uf("ff", [links + ["new"], verts + [None]], "bool", unhashable=p["filter"] == "ufu")
+              if p["filter"] in ("uf", "ufu") else None)
         # warm entries only matter where they exist and a missing statistics record only where it is missing:
         # "all vertices" / "no vertex" for each (one symbolic bit each) covers the per-vertex cases
         # the queried vertex: only its own entry and statistics record can matter to its answer.
@@ -179,7 +188,10 @@ def scenario(B, p):
         env = {"verts": B.mklist([x]), "d": d, "u": u, "ff": ff,
                "warm": B.mklist([True if not p.get("unreg") else B.bool("warm")]),
                "unreg": B.mklist([B.bool("unregistered") if p.get("unreg") else False])}
-        B.run(PROG_WARM, env)
+        if p.get("twokeys"):
+            B.run(PROG_WARM, dict(env, d=B.int("direction0", 0, 2), u=B.int("unknown_handling0", 0, 2)))
+        else:
+            B.run(PROG_WARM, env)
         allv, alll = verts, links
         for si, fam in enumerate(p["families"]):
             B.run(PROG_FLAG, {"flag": B.bool(f"flag{si}")})
